@@ -489,7 +489,7 @@ def run(prog: Program, col: Collector, tier: str, refs: Optional[Refs] = None, c
     # binary rules over aligned operands (Binary(op, Align, Align) and the tensor rules) keep the operand order: shared with C02
     from . import algebra
     algebra.r_binary_rule_operand_order(prog, col, refs, cat, "R19.11")
-    col.rule("R19.12", "a method of Tensor that rebuilds a Tensor from self.data hands the dtype on", floor=5)
+    col.rule("R19.12", "a method of Tensor that rebuilds a Tensor from a re-layout of self.data (subscripts, permute / reshape / expand …) hands the dtype on", floor=2)
     _dtype_handed_on(prog, col, refs)
     col.rule("R19.13", "Contraction.align returns the term-wise aligned result only when its inputs are the requested names; in every other case the lazy Align", floor=1)
     _contraction_align_fallback(prog, col, refs)
@@ -504,21 +504,37 @@ def _dtype_handed_on(prog: Program, col: Collector, refs: Refs):
     for f in prog.funcs.values():
         if f.cls is None or not f.fq.startswith("funsor.tensor::Tensor.") or isinstance(f.node, ast.Lambda) or f.name in ("_sample", "__init__"):
             continue
+        LAYOUT = {"permute", "reshape", "expand", "transpose", "unsqueeze", "squeeze", "stack", "cat", "flip", "detach", "contiguous", "copy", "clone"}
+
+        def layout_of_self_data(e, derived):
+            """`e` is self.data, a name derived from it, or either of them under subscripts / layout-only calls"""
+            if isinstance(e, ast.Attribute) and e.attr == "data" and isinstance(e.value, ast.Name) and e.value.id == "self":
+                return True
+            if isinstance(e, ast.Name):
+                return e.id in derived
+            if isinstance(e, ast.Subscript):
+                return layout_of_self_data(e.value, derived)
+            if isinstance(e, ast.IfExp):
+                return layout_of_self_data(e.body, derived) and layout_of_self_data(e.orelse, derived)
+            if isinstance(e, ast.Call) and norm(e.func).rsplit(".", 1)[-1] in LAYOUT:
+                recv = [e.func.value] if isinstance(e.func, ast.Attribute) and not norm(e.func.value) in ("ops", "funsor.ops", "np", "numpy") else []
+                return any(layout_of_self_data(a, derived) for a in recv + list(e.args[:1]))
+            return False
+
         derived = set()
         for _ in range(4):
             for st in walk_no_nested(f.node):
-                if isinstance(st, ast.Assign):
-                    src = any((isinstance(y, ast.Attribute) and y.attr == "data" and isinstance(y.value, ast.Name) and y.value.id == "self")
-                              or (isinstance(y, ast.Name) and y.id in derived) for y in ast.walk(st.value))
-                    if src:
-                        derived |= {y.id for t in st.targets for y in ast.walk(t) if isinstance(y, ast.Name)}
+                if isinstance(st, ast.Assign) and len(st.targets) == 1 and isinstance(st.targets[0], ast.Name) and layout_of_self_data(st.value, derived):
+                    derived.add(st.targets[0].id)
+        # a name that is also assigned something else (the result of an op, say) is not a pure re-layout
+        for st in walk_no_nested(f.node):
+            if isinstance(st, ast.Assign) and len(st.targets) == 1 and isinstance(st.targets[0], ast.Name) and st.targets[0].id in derived \
+                    and not layout_of_self_data(st.value, derived):
+                derived.discard(st.targets[0].id)
         for c in walk_no_nested(f.node):
             if not (isinstance(c, ast.Call) and isinstance(c.func, ast.Name) and c.func.id == "Tensor" and c.args):
                 continue
-            a0 = c.args[0]
-            from_self = any((isinstance(y, ast.Attribute) and y.attr == "data" and isinstance(y.value, ast.Name) and y.value.id == "self")
-                            or (isinstance(y, ast.Name) and y.id in derived) for y in ast.walk(a0))
-            if not from_self:
+            if not layout_of_self_data(c.args[0], derived):
                 continue
             n += 1
             has = len(c.args) >= 3 or any(k.arg == "dtype" for k in c.keywords) or any(k.arg is None for k in c.keywords)
